@@ -63,6 +63,10 @@ Theorem C12_headers_irrelevant : forall c h h', Forall2 same_but_headers h h' ->
 Proof. exact run_logins_ignores_headers. Qed.
 Print Assumptions C12_headers_irrelevant.
 
+Example C12_headers_premises_satisfiable : Forall2 same_but_headers spoof_fixed spoof_rotating.
+Proof. exact headers_premises_satisfiable. Qed.
+Print Assumptions C12_headers_premises_satisfiable.
+
 (** [login] is [login_with UsePeer UsePeer]; the source still says so. *)
 Theorem C12_limiter_keys_code :
   login_check_key = Some UsePeer /\ login_count_key = Some UsePeer.
@@ -274,3 +278,22 @@ Example C12_session_premises_satisfiable :
   authenticates 3600 3000 [48; 56]%N (srun 3600 s_init h) = false.
 Proof. exact session_premises_satisfiable. Qed.
 Print Assumptions C12_session_premises_satisfiable.
+
+(** The premises of C12_logout_final, C12_removed_final, C12_expired_final,
+    C12_never_issued and C12_session_window_complete hold of a concrete
+    history with another spelling of the token in play. *)
+Example C12_final_premises_satisfiable :
+  let h1 := [SNew 1000 ex_tok [97%N]] in
+  let h2 := [SRestart 1300; SCheck 1400 ex_sp_upper; SNew 1500 ex_raw [98%N]] in
+  Forall wf_new h1 /\
+  authenticates 3600 1200 ex_sp (srun 3600 s_init h1) = true /\
+  hex_decode_prefix ex_sp_upper = hex_decode_prefix ex_sp /\
+  Forall (fun o => wf_new o /\ forall t0 raw u, o = SNew t0 raw u -> raw <> hex_decode_prefix ex_sp) h2 /\
+  Forall (fun o => wf_new o /\ ~ issues ex_sp o) h2 /\
+  removes ex_sp (SLogout 1200 ex_sp) /\
+  snd (check_session 3600 5000 ex_sp (srun 3600 s_init h1)) = CSExpired /\
+  Forall wf_new (h1 ++ [SCheck 1100 ex_sp_upper; SLogout 1150 ex_sp_upper; SRestart 1200]) /\
+  Forall (fun o => spares ex_tok o /\ (forall t', op_time o = Some t' -> (1000 <= t' <= 1300)%N))
+         [SCheck 1100 ex_sp_upper; SLogout 1150 ex_sp_upper; SRestart 1200].
+Proof. exact final_premises_satisfiable. Qed.
+Print Assumptions C12_final_premises_satisfiable.
